@@ -85,6 +85,7 @@ class Pump(object):
     def run(self):
         if self.err is not None:
             return                               # the loop has died: the thread is gone
+        LiveDulModule.current = self.sock         # a transport connection opened now (AE-1) is this association's
         self.iterations = 0
         self.prov.is_killed = False
         try:
@@ -122,6 +123,29 @@ class LiveProvider(dulprovider.DULServiceProvider):
             pump.run()
         return dulprovider.DULServiceProvider.receive(self, timeout)
 
+    def stop(self):
+        """Association.kill() polls stop() for up to a second while the provider thread runs: here the thread (and the
+        peer) get to run now"""
+        pump = self._vt_pump
+        pump.run()
+        rounds = 0
+        while self._vt_peer is not None and rounds < 30 and self.dul_socket is not None:
+            rounds += 1
+            if not self._vt_peer(self._vt_sock):
+                break
+            pump.run()
+        return dulprovider.DULServiceProvider.stop(self)
+
+    def kill(self):
+        """termination flag, then the loop gets to see it (the real kill() waits for the thread's exit event)"""
+        self.is_killed = True
+        if self._vt_pump.err is None:
+            try:
+                dulprovider.DULServiceProvider.run(self)
+            except Exception as e:                   # noqa
+                self._vt_pump.err = 'died: %s: %s' % (type(e).__name__, e)
+        self._vt_killed = True
+
 
 class PeerBot(object):
     """scripted peer: react(new_pdus_written_by_the_library) -> list of byte segments to deliver (b'' = close)"""
@@ -147,13 +171,19 @@ class LiveDulModule(object):
     thread is not started) on the StepSocket the harness prepared for the association that is being constructed"""
     next_socket = None
     next_peer = None
+    current = None
+    queue = []            # (socket, peer) pairs for associations that the library constructs itself, in order
     created = []
     Timer = dulprovider.Timer
     PDU_TYPES = dulprovider.PDU_TYPES
 
     @classmethod
     def DULServiceProvider(cls, store_in_file, get_file_cb, dul_socket=None, max_pdu_length=65536, **kw):
+        peer = cls.next_peer
         sock = cls.next_socket
+        if cls.queue:
+            sock, peer = cls.queue.pop(0)
+            cls.next_socket = sock               # AE-1 "connects" this one
         with sim._no_tracing():
             prov = LiveProvider(store_in_file, get_file_cb, sock if dul_socket is not None else None, max_pdu_length)
             prov.to_service_user = sim.SimQueue()
@@ -161,7 +191,7 @@ class LiveDulModule(object):
         pump = Pump(prov, sock)
         prov._vt_pump = pump
         prov._vt_sock = sock
-        prov._vt_peer = cls.next_peer
+        prov._vt_peer = peer
         cls.created.append(prov)
         return prov
 
@@ -179,12 +209,14 @@ def install(clock):
     dulprovider.select = sim.SimSelect()
     dulprovider.time = clock
     sockmod = sim.SocketModule()
-    sockmod.socket = lambda *a: LiveDulModule.next_socket      # AE-1 of a requester "connects" the prepared socket
+    sockmod.socket = lambda *a: LiveDulModule.current or LiveDulModule.next_socket   # AE-1 "connects" the prepared socket
     fsm.socket = sockmod
     asceprovider.dulprovider = LiveDulModule
     asceprovider.time = A.NoSleep
     asceprovider.socketserver = _SocketServerStub
     LiveDulModule.created = []
+    LiveDulModule.queue = []
+    LiveDulModule.next_peer = None
 
 
 class LiveAcceptor(object):
